@@ -342,7 +342,23 @@ class C15(Spec):
         return us
 
 
-_SPECS = {'C08': C08, 'C09': C09, 'C10': C10, 'C11': C11, 'C13': C13, 'C15': C15, 'C18': C18, 'C01': C01, 'C02': C02, 'C03': C03, 'C04': C04, 'C05': C05, 'C06': C06, 'C07': C07}
+class C16(Spec):
+    design_ref = 'DESIGN.md 4/C16'
+    level_text = ('deterministic point sets: 10 (thorough 60) lattice centres incl. rotations ~pi from the identity and |translation| 1e3, offsets exp(delta_j) from a fixed 50-vector table scaled to radius {0,1e-9,1e-3,0.1,0.5}, '
+                  'sizes {1,2,3,5,10,50}; all four routines; result valid, identical points return the point, empty set raises, stationarity of the bi-invariant mean condition against the reference log, '
+                  'all permutations for n<=4 (reversal and rotations beyond), 3 left and right translations')
+    rule = 'cells = (centre, radius, size) x routine x {stationarity, order, left/right translation}; non-trivial = radius > 0 and n > 1'
+    explanation = 'explicit enumeration of deterministic point sets on the real code; oracle = residual mean tangent computed with the reference logarithm, tolerance 10 sqrt(stopping eps) (x |Adj| where the routine stops in the world frame)'
+    assumptions = COMMON_ASSUMPTIONS + ['point sets are a fixed deterministic family, not all sets within the radius']
+
+    def units(self, tier):
+        us = lattice_units('checks/c16.cpp', defs=['VF_FN_ALL=1'], shards=(lambda g, s: (8 if 'SGal3' in g else (4 if g in ('SE_2_3', 'SE3') else 2)) * (2 if tier == 'thorough' else 1)))
+        for u in us:
+            u.bisect = [('biinvariant', ['VF_FN=1']), ('weighted_average', ['VF_FN=2']), ('frechet', ['VF_FN=3'])]
+        return us
+
+
+_SPECS = {'C08': C08, 'C09': C09, 'C10': C10, 'C11': C11, 'C13': C13, 'C15': C15, 'C16': C16, 'C18': C18, 'C01': C01, 'C02': C02, 'C03': C03, 'C04': C04, 'C05': C05, 'C06': C06, 'C07': C07}
 
 
 def get(prop):
